@@ -6,6 +6,7 @@ import (
 	"fmt"
 
 	"github.com/tellor-io/layer/x/oracle/types"
+	regtypes "github.com/tellor-io/layer/x/registry/types"
 
 	errorsmod "cosmossdk.io/errors"
 
@@ -24,6 +25,17 @@ func (k msgServer) UpdateCyclelist(ctx context.Context, req *types.MsgUpdateCycl
 	// block processing rotates through the list every block and cannot work with an empty one
 	if len(req.Cyclelist) == 0 {
 		return nil, errorsmod.Wrap(types.ErrInvalidQueryData, "cycle list cannot be empty")
+	}
+	// every entry must be query data the oracle can open a reporting round for: RotateQueries initializes the
+	// next entry in EndBlock and fails the block if its query type does not decode or has no registered spec
+	for _, queryData := range req.Cyclelist {
+		queryType, _, err := regtypes.DecodeQueryType(queryData)
+		if err != nil {
+			return nil, errorsmod.Wrapf(types.ErrInvalidQueryData, "cycle list entry does not decode: %v", err)
+		}
+		if _, err := k.keeper.GetDataSpec(ctx, queryType); err != nil {
+			return nil, errorsmod.Wrapf(types.ErrInvalidQueryData, "cycle list entry has no registered data spec for query type %s", queryType)
+		}
 	}
 	if err := k.keeper.Cyclelist.Clear(ctx, nil); err != nil {
 		return nil, err
